@@ -1,6 +1,56 @@
-From V Require Import Common.Base C14.Compat C14.Spec C14.CompatProofs.
-(* non-vacuity / sanity: concrete values *)
+From Coq Require Import String.
+From V Require Import Common.Base C14.Compat C14.Spec C14.LowerGraph C14.CompatProofs C14.TableProofs.
+(* non-vacuity / sanity: concrete values meeting the hypotheses of the theorems *)
+
+(* es_monotone: optional chaining is unsupported for ES2019 and supported for ES2020 *)
 Example es2019_unsupported_has_optional_chain :
   existsb (feature_eqb FOptionalChain) (unsupported_list (es_constraint 2019)) = true
   /\ existsb (feature_eqb FOptionalChain) (unsupported_list (es_constraint 2020)) = false.
 Proof. vm_compute. split; reflexivity. Qed.
+
+(* the unsupported set of ES2015 as a bit set is non-trivial and the ES2024 one is smaller *)
+Example es2015_bits_nonzero :
+  Nat.ltb (length (unsupported_list (es_constraint 2024))) (length (unsupported_list (es_constraint 2015))) = true
+  /\ Nat.ltb 0 (length (unsupported_list (es_constraint 2024))) = true.
+Proof. vm_compute. split; reflexivity. Qed.
+
+(* apply_overrides_spec in both directions on a concrete triple *)
+Example overrides_both_directions :
+  let f := bits_of [FArrow; FClass] in
+  let o := bits_of [FBigint] in
+  let m := bits_of [FArrow; FBigint] in
+  has (ApplyOverrides f o m) FArrow = false /\ has (ApplyOverrides f o m) FBigint = true /\ has (ApplyOverrides f o m) FClass = true.
+Proof. vm_compute. repeat split; reflexivity. Qed.
+
+(* implied_overrides_consistent: class:false drags the class features along *)
+Example class_false_implies_fields :
+  let o := configured_unsupported [] [(FClass, false)] in
+  has (o_unsupported o) FClassPrivateField = true /\ has (o_mask o) FClassStaticBlocks = true.
+Proof. vm_compute. split; reflexivity. Qed.
+
+(* supported_true_honoured has satisfiable hypotheses *)
+Example optional_chain_forced_on :
+  has (o_unsupported (configured_unsupported (es_constraint 2015) [(FOptionalChain, true)])) FOptionalChain = false
+  /\ existsb (feature_eqb FOptionalChain) implied_targets = false.
+Proof. vm_compute. split; reflexivity. Qed.
+
+(* lowering_closed_partial / compile_sound_partial: the ES2015 unsupported set satisfies base_ok,
+   decorators + async generators + object rest are lowered to Arrow/Generator/ForOf/let only *)
+Example es2015_compile :
+  let U := fset_of (unsupported_list (es_constraint 2015)) in
+  base_ok U = true /\
+  match compile U [FDecorators; FAsyncGenerator; FObjectRestSpread; FUsing; FClassPrivateField] with
+  | Ok out => forallb (fun g => negb (U g)) out && Nat.ltb 20 (length out)
+  | Error => false
+  end = true.
+Proof. vm_compute. split; reflexivity. Qed.
+
+(* the guards matter: with for-of unsupported the for-of-free variants are selected *)
+Example no_for_of_variant :
+  existsb (feature_eqb FForOf) (helper_feats (fset_of []) helper_fuel "__objRest") = true /\
+  existsb (feature_eqb FForOf) (helper_feats (fset_of [FForOf]) helper_fuel "__objRest") = false.
+Proof. vm_compute. split; reflexivity. Qed.
+
+(* rejected features make the compile fail *)
+Example tla_rejected : compile (fset_of [FTopLevelAwait]) [FTopLevelAwait] = Error.
+Proof. vm_compute. reflexivity. Qed.
